@@ -451,7 +451,13 @@ def usedOutsLoop (p : Program) : Nat → List String → List (String × List St
     else
       let (next, outs) := used.foldl (fun acc name =>
         match p.find? name with
-        | some pipe => (pipeCallRefs p pipe).foldl (useRef p pipe) acc
+        | some pipe =>
+          -- every called pipeline is visited, whether or not its outputs are referenced
+          let called := pipe.calls.foldl (fun a k =>
+            match p.find? k.decId with
+            | some d => if d.isPipe && !a.contains d.name then a ++ [d.name] else a
+            | none => a) acc.1
+          (pipeCallRefs p pipe).foldl (useRef p pipe) (called, acc.2)
         | none => acc) (([] : List String), outs)
       usedOutsLoop p fuel next outs
 
@@ -477,7 +483,11 @@ def removeUnusedOutputsPass (p0 : Program) (tops : List String) (p : Program) : 
       match unused.find? (fun e => e.1 == c.name) with
       | some e => if c.isPipe then removeOutsOf e.2 c else c
       | none => c
-    (removeInputs ins { p with callables := p.callables.map dropOuts }, true)
+    -- Go: `changes` is set when the edits were applied at >= 1 place; a table
+    -- entry whose output set is empty (all outputs carry a keep comment)
+    -- produces no edit.
+    (removeInputs ins { p with callables := p.callables.map dropOuts },
+     unused.any (fun e => !e.2.isEmpty) || !ins.isEmpty)
 
 /-! ## the removal loop of `Refactor` -/
 
